@@ -265,12 +265,29 @@ func (e *env) run(sc *Scenario) {
 			e.rec.Inconclusive("unknown scenario kind " + sc.Kind)
 		}
 	}()
-	tm := time.NewTimer(e.watchdog)
-	defer tm.Stop()
+	// the watchdog period in 24 separate waits (see mon.AfterSteps: a clock jump ends one wait,
+	// not the whole period); inline, because this runs once per scenario and must leave nothing behind
+	finished := false
+	for i := 0; i < 24 && !finished; i++ {
+		t := time.NewTimer(e.watchdog / 24)
+		select {
+		case <-done:
+			finished = true
+		case <-t.C:
+		}
+		t.Stop()
+	}
+	if finished {
+		return
+	}
+	// A timer also fires when the clock has jumped (the machine was paused, a snapshot was taken):
+	// a scenario that then finishes at once was not stuck. Only one that is still not done after a
+	// further grace period is treated as unfinished.
 	select {
 	case <-done:
+		e.rec.Count("scenarios_finished_right_after_their_watchdog_fired", 1)
 		return
-	case <-tm.C:
+	case <-time.After(30 * time.Second):
 	}
 	// The watchdog is not a verdict: a scenario that does not finish is
 	// reported as inconclusive with its description.
